@@ -13,7 +13,7 @@ from vt.world import World, WSpec, Abort
 ID = 'C14'
 KIND = 'explorer'
 LEVEL = 'model_checking'
-BUDGET = {'quick': 120, 'thorough': 1200}
+BUDGET = {'quick': 900, 'thorough': 10800}
 RULE = ('all 3^4 x 2^4 = 1296 assignments of {true,false,raise} x {ignore flag} to before_start / before_spawn / '
         'after_spawn / after_start, crossed with worker pattern, numprocesses and request (start, restart); all '
         '3^2 x 2^2 assignments to (before_stop, after_stop) and (before_signal, after_signal) crossed with stop / '
